@@ -91,7 +91,6 @@ def allTestsWithPath (r : Report) : List (Path × TestResult) :=
 inductive ViewErr
   | noneStartTime     -- `TypeError`: `min(t.start_time …)` / `format_time_as_iso8601(None)` on a test without start time
   | noneTime          -- `TypeError`: `report.end_time - report.start_time` with a missing time
-  | noResults         -- `IndexError`: `results[-1]` of `ReportStats.from_suites` on a forest without any result
 deriving DecidableEq, Repr, Inhabited
 
 /-! ### statistics -/
